@@ -416,15 +416,19 @@ def generate_common_struct_field(
     field: CommonStructField,
     version: int,
 ) -> str:
+    optional = field.is_nullable_for_version(version)
     field_call = format_dataclass_field(
         field_type=field.type,
         default=None,
-        optional=field.is_nullable_for_version(version),
+        optional=optional,
         custom_type=None,
         tag=field.get_tag(version),
         ignorable=field.ignorable,
     )
-    return f"    {to_snake_case(field.name)}: {field.type.struct.name}{field_call}\n"
+    annotation = (
+        f"{field.type.struct.name} | None" if optional else field.type.struct.name
+    )
+    return f"    {to_snake_case(field.name)}: {annotation}{field_call}\n"
 
 
 seen = set[tuple[str, int]]()
